@@ -190,26 +190,56 @@ func runC01(w *World, r *Report) {
 					continue
 				}
 				for _, y := range ys {
-					ve := validateCallsFor(ap.Parent(), y) // where the list is filled (addLeafMemorized or its helper)
-					okAll := len(ve) > 0
-					if !behind(ap, ve) { // validated unconditionally is fine too
-						if len(isLeafTrue) == 0 {
-							okAll = false
-						}
-						nLocal := 0
-						for _, te := range isLeafTrue {
-							if te.From.Parent() != ap.Parent() {
-								continue
+					// at: the place the vertex y is handed on (the append, or the successful return of a helper that looks the
+					// parent up and hands it back to the loop that appends it)
+					var validatedAt func(at ssa.Instruction, y ssa.Value, depth int) bool
+					validatedAt = func(at ssa.Instruction, y ssa.Value, depth int) bool {
+						if ex, isEx := y.(*ssa.Extract); isEx && depth < 2 {
+							if hc, isCall := ex.Tuple.(*ssa.Call); isCall {
+								if h := samePkgHelper(at.Parent(), hc); h != nil {
+									ok, n := true, 0
+									for _, ret := range returnsOf(h) {
+										if !successReturn(ret) {
+											continue
+										}
+										vals, zero := resultVals(ret, ex.Index)
+										if zero {
+											continue
+										}
+										for _, rv := range vals {
+											n++
+											if !validatedAt(ret, rv, depth+1) {
+												ok = false
+											}
+										}
+									}
+									return ok && n > 0
+								}
 							}
-							nLocal++
-							if !mustCrossFrom(te, ap.Block(), ve) {
+						}
+						ve := validateCallsFor(at.Parent(), y) // where the list is filled (addLeafMemorized or its helper)
+						okAll := len(ve) > 0
+						if !behind(at, ve) { // validated unconditionally is fine too
+							if len(isLeafTrue) == 0 {
+								okAll = false
+							}
+							nLocal := 0
+							for _, te := range isLeafTrue {
+								if te.From.Parent() != at.Parent() {
+									continue
+								}
+								nLocal++
+								if !mustCrossFrom(te, at.Block(), ve) {
+									okAll = false
+								}
+							}
+							if nLocal == 0 {
 								okAll = false
 							}
 						}
-						if nLocal == 0 {
-							okAll = false
-						}
+						return okAll
 					}
+					okAll := validatedAt(ap, y, 0)
 					r.check(okAll, "confirm-only-validated", "addLeafMemorized/append("+describeVertexSource(y)+")", lineOf(w, ap),
 						"a parent that is still a tip enters the to-be-linked list only behind validateLeaf(ctx, that parent) == nil",
 						"append reachable from the isLeaf==true edge without crossing the success edge of validateLeaf for the appended vertex")
@@ -221,6 +251,8 @@ func runC01(w *World, r *Report) {
 	// a vertex admitted without an edge from each declared parent is a root, and roots are exempt from the funds check
 	parentsExist(w, r, "admitted-vertex-has-its-parents")
 	checkpointCountsOnlyTheWalked(w, r, "checkpoint-counts-only-the-walked")
+	// the funds validation adds amounts with Supply, which is exact on canonical amounts only
+	canonicalAtEntry(w, r)
 
 	// ---- 2. a failing tip is dropped together with its index entry
 	r.rule("drop-with-index", "from the failure edge of validateLeaf(ctx, v) every path to an exit or to the next validation passes DeleteVertex(v.Hash) and removeTrxInVertex(v.Transaction.Hash)", 4)
